@@ -62,6 +62,10 @@ FAMILY_GOALS = [
     ("k = Bernoulli(1/2)\nc = 2*k\ny = 0\nwhile c < 2:\n    if c == 0:\n        c = 1 {1/4} 2 {1/4} 0\n    end\n    y = y + 1\nend\n", ["k", "k**2", "y", "k*y"]),
     ("k = DiscreteUniform(0, 2)\nc = 1\nx = 0\nwhile c == 1:\n    c = Bernoulli(1/2)\n    x = x + k\nend\n", ["k", "k*x", "x", "k**2"]),
     ("k = Bernoulli(1/3)\nc = k\nx = 5\nwhile c == 0:\n    c = Bernoulli(1/2)\n    x = x + 1\nend\n", ["k", "x", "k*x"]),
+    # a finite variable assigned three times under a guard: its value after exit lies outside the in-loop values of the
+    # intermediate versions (goals of degree 3 need the types of those versions)
+    ("f = 0\nx = 0\nwhile f == 0:\n    x = Bernoulli(1/2)\n    x = x + 1\n    x = 3*x\n    f = Bernoulli(1/3)\nend\n", ["x", "x**2", "x**3"]),
+    ("f = 0\nx = 1\ny = 0\nwhile f == 0:\n    x = DiscreteUniform(0, 2)\n    x = 2*x + 1\n    x = x*x\n    y = y + x\n    f = Bernoulli(1/2)\nend\n", ["x", "x**3", "y", "x**2"]),
     # guards that are overlapping disjunctions over one variable
     ("c = 0\nx = 0\nwhile c <= 1 || c == 1:\n    c = DiscreteUniform(0, 2)\n    x = x + c\nend\n", ["c", "x", "c*x", "x**2"]),
     ("c = 2\nx = 0\nwhile c >= 1 || c == 2 || c > 1:\n    c = 0 {1/4} 1 {1/4} 2\n    x = x + 1\nend\n", ["c", "x", "c*x"]),
